@@ -12,6 +12,7 @@ import M3d.Lemmas.DeformTargets
 import M3d.Lemmas.ArapLin
 import M3d.Lemmas.MeshHeap
 import M3d.Lemmas.ArapLoop
+import M3d.Lemmas.ArapRot
 /-!
 # C10 — mesh processing keeps closed oriented manifolds closed, oriented, manifold
 
@@ -883,5 +884,72 @@ example :
   decide +kernel
 
 end ArapLin
+
+/-! ## The best-fit rotations of ARAP (`ARAP.rotations`; model `M3d/Model/ArapRot.lean`)
+
+Per vertex: covariance of the one-ring (`covRow`, rotation weight table), `Matrix3.SVD` (an oracle:
+`covariance = u · diag(s₀,s₁,s₂) · v^T`, `u`, `v` orthogonal, `s₀ ≥ s₁ ≥ s₂ ≥ 0`), and
+`rotOf u v = v u^T`, with the left singular vector of the SMALLEST singular value (column 2)
+negated when `det (v u^T) < 0`. -/
+section ArapRot
+open M3d.ArapLin M3d.ArapRot
+
+/-- **`arap_rotation_repair_maps_major_singular_vectors`**: for orthogonal `u`, `v` (what an SVD
+delivers) the matrix `ARAP.rotations` returns is a proper rotation — orthogonal, determinant `1`,
+whatever the sign of `det (v u^T)` — and it maps the left singular vectors of the two LARGEST
+singular values to the corresponding right ones: `rot u₀ = v₀`, `rot u₁ = v₁` (and `rot u₂ = ± v₂`:
+only the direction of the smallest singular value pays for the repair, which is what makes `rot` the
+proper rotation of best fit).  Negating another column (seeded change C10-15: the middle one) gives
+`rot u₁ = -v₁`.  The driver evaluates `det rot > 0`, `(rot u₀)·v₀ > 0`, `(rot u₁)·v₁ > 0` exactly on
+the real outputs (`araprot3`). -/
+theorem arap_rotation_repair_maps_major_singular_vectors {K : Type} [Field K] [LinearOrder K] [IsStrictOrderedRing K]
+    (u v : Mat3 K) (hu : Orth u) (hv : Orth v) :
+    Orth (rotOf u v) ∧ ArapRot.det (rotOf u v) = 1 ∧
+      Mat3.mulCol (rotOf u v) (col u 0) = col v 0 ∧ Mat3.mulCol (rotOf u v) (col u 1) = col v 1 ∧
+      Mat3.mulCol (rotOf u v) (col u 2) = (col v 2).scale (ArapRot.det v * ArapRot.det u) := by
+  refine ⟨rotOf_orth hu hv, rotOf_det hu hv, ?_, ?_, ?_⟩
+  · rw [mulCol_col, rotOf_mul_u hu, col_mul_diag0, scale_one]
+  · rw [mulCol_col, rotOf_mul_u hu, col_mul_diag1, scale_one]
+  · rw [mulCol_col, rotOf_mul_u hu, col_mul_diag2, sgn_eq_det hu hv]
+
+/-- **`arap_best_fit_rotation_of_rigid_image`** ("reproduces a rigid motion"): let `y = R p + t` be
+the image of the mesh under a rigid motion (`R` orthogonal, `det R = 1`), let the rotation weights
+of vertex `i` be non-negative, and let `u · diag(s₀,s₁,s₂) · v^T` (orthogonal `u`, `v`; `s₀, s₁ > 0`:
+the one-ring is not contained in a line — it may be FLAT, `s₂ = 0`, the interior of a planar face)
+be a singular value decomposition of the covariance matrix `ARAP.rotations` forms for vertex `i`.
+Then the rotation it returns for vertex `i` is `R` — for every such decomposition, i.e. whatever
+signs the SVD picked for the singular vectors (for a flat one-ring `det (v u^T)` is `-1` for half
+of the choices, and the repair must negate the column of `s₂`).  With `arap_energy_zero_at_rigid_image`
+and `arap_rigid_motion_solves_linear_step`: the rigid image is a fixed point of the iteration. -/
+theorem arap_best_fit_rotation_of_rigid_image {K : Type} [Field K] [LinearOrder K] [IsStrictOrderedRing K]
+    (p : Nat → V3 K) (R : Mat3 K) (t : V3 K) (i : Nat) (row : List (Nat × K)) (hw : ∀ nw ∈ row, 0 ≤ nw.2)
+    (hR : Orth R) (hdR : ArapRot.det R = 1)
+    (u v : Mat3 K) (s0 s1 s2 : K) (hu : Orth u) (hv : Orth v) (h0 : 0 < s0) (h1 : 0 < s1)
+    (hsvd : mul (mul u (diag s0 s1 s2)) (transpose v) = covRow p (fun k => rigid R t (p k)) i row) :
+    rotOf u v = R := by
+  rw [covRow_rigid] at hsvd
+  exact rotOf_rigid hu hv hR hdR h0 h1 hsvd (gram_symm p i row) (gram_psd p i row hw)
+
+/-- Non-vacuity and separation: a FLAT one-ring (four neighbours in the plane `z = 0` around the
+origin, weights 1), `R` = the quarter turn about `x`, `t = (1, 2, 3)`.  The covariance of the rigid
+image is `u · diag(2, 2, 0) · v^T` for `u = I`, `v = R · diag(1, 1, -1)` — an admissible output of an SVD
+with `det (v u^T) = -1`: the hypotheses of both theorems hold, `rotOf u v = R`, whereas negating the
+MIDDLE column (seeded change C10-15) gives another rotation, which sends `u₁` to `-v₁`. -/
+example :
+    let p : Nat → V3 Rat := fun k => [⟨0, 0, 0⟩, ⟨1, 0, 0⟩, ⟨0, 1, 0⟩, ⟨-1, 0, 0⟩, ⟨0, -1, 0⟩].getD k ⟨0, 0, 0⟩
+    let row : List (Nat × Rat) := [(1, 1), (2, 1), (3, 1), (4, 1)]
+    let R : Mat3 Rat := ⟨1, 0, 0, 0, 0, -1, 0, 1, 0⟩
+    let t : V3 Rat := ⟨1, 2, 3⟩
+    let u : Mat3 Rat := ArapRot.one
+    let v : Mat3 Rat := mul R (diag 1 1 (-1))
+    let seeded := mul v (transpose (negCol 1 u))
+    mul (mul u (diag 2 2 0)) (transpose v) = covRow p (fun k => rigid R t (p k)) 0 row ∧
+      mul (transpose u) u = ArapRot.one ∧ mul (transpose v) v = ArapRot.one ∧ mul v (transpose v) = ArapRot.one ∧
+      ArapRot.det (mul v (transpose u)) = -1 ∧ ArapRot.det R = 1 ∧
+      rotOf u v = R ∧ seeded ≠ R ∧ ArapRot.det seeded = 1 ∧
+      Mat3.mulCol seeded (col u 1) = (col v 1).scale (-1) := by
+  decide +kernel
+
+end ArapRot
 
 end M3d.C10
